@@ -67,6 +67,9 @@ class GeckoStructure:
                 self.replace_status_block_segment(
                     self._status_block_offset, b"".join(self._status_block_segments)
                 )
+                # Start afresh, another complete chain (an overlapping refresh or
+                # a duplicated request) must not be appended to this one
+                self._status_block_segments = []
                 self.had_at_least_one_block = True
                 handler._should_remove_handler = True
 
